@@ -37,6 +37,7 @@ func TestVerif(t *testing.T) {
 	case "C09":
 		verifC09(t, r, out)
 	case "C10":
+		verifC09(t, r, out) // the receive-retry clause of C10 is the listener's loop
 		verifC10Group(t, r, out)
 		verifC10GroupQ(t, r, out)
 	case "C12":
